@@ -531,16 +531,6 @@ Qed.
 
 (* ------------------------------------------------------------------ cancelling the context *)
 
-(* Reads and writes do not look at the cancellation. *)
-Lemma read_tok_from_cancel f c c' hs s : forall w,
-  read_tok_from (mkPlan f c hs) w s = read_tok_from (mkPlan f c' hs) w s.
-Proof.
-  induction s as [|it r IH]; intro w; cbn [read_tok_from]; [reflexivity|].
-  destruct it as [t|]; [reflexivity|].
-  change (do_read_op (mkPlan f c hs) w r true) with (do_read_op (mkPlan f c' hs) w r true).
-  destruct (do_read_op (mkPlan f c' hs) w r true) as [ok w1]. destruct ok; [apply IH | reflexivity].
-Qed.
-
 (* what a token read adds to the trace are read events only *)
 Lemma read_tok_from_trace pl s : forall w,
   exists nr, w_trace (snd (read_tok_from pl w s)) = nr ++ w_trace w /\ forall e, In e nr -> exists b, e = ERead b.
@@ -566,63 +556,73 @@ Proof. reflexivity. Qed.
 (* all ctx tests that passed did so while at most c operations had been performed *)
 Definition passes_le (c : nat) (new : list event) : Prop := forall n, In (ECtxPass n) new -> n <= c.
 
-(* The run with the context cancelled at operation c against the run without cancellation:
-   the former ends in an error, or the two coincide and no ctx test of the run was made after
-   operation c. (Programs log marker events only: premise [wru_ok].) *)
-Theorem interp_cancel A P (p : prog A) f hs c : wru_ok P p -> forall w,
-  fst (interp (mkPlan f (Some c) hs) p w) = RErr \/
-  (interp (mkPlan f (Some c) hs) p w = interp (mkPlan f None hs) p w /\
-   exists new, w_trace (snd (interp (mkPlan f None hs) p w)) = new ++ w_trace w /\ passes_le c new).
+(* the same plan without the cancellation *)
+Definition uncancelled (pl : plan) : plan := mkPlan (p_fault pl) None (p_entry pl) (p_deadline pl) (p_hs_ok pl).
+
+(* an operation that succeeds under the cancelled plan succeeds without the cancellation *)
+Lemma op_ok_uncancelled pl w b : op_ok pl w b = true -> op_ok (uncancelled pl) w b = true.
 Proof.
-  set (pl1 := mkPlan f (Some c) hs). set (pl0 := mkPlan f None hs).
-  induction 1 as [a| | | |k _ IH|s k _ IH|s k Hs _ IH|ke k _ IH|ko ke _ IH|k _ IH|m k _ IH|rs k _ IH|e k He _ IH];
-    intro w; cbn [interp].
-  - right. split; [reflexivity|]. exists []. split; [reflexivity | intros n []].
-  - left. reflexivity.
-  - right. split; [reflexivity|]. exists []. split; [reflexivity | intros n []].
-  - right. split; [reflexivity|]. exists []. split; [reflexivity | intros n []].
-  - unfold read_tok.
-    replace (read_tok_from pl1 w (w_script w)) with (read_tok_from pl0 w (w_script w))
-      by (symmetry; apply read_tok_from_cancel).
-    destruct (read_tok_from_trace pl0 (w_script w) w) as [nr [Ht Hr]].
-    destruct (read_tok_from pl0 w (w_script w)) as [[t|] w1]; [|left; reflexivity].
-    cbn [snd] in Ht. destruct (IH t w1) as [He|[Heq [new [Hn Hp]]]]; [left; exact He|].
-    right. split; [exact Heq|]. exists (new ++ nr). split; [rewrite Hn, Ht, app_assoc; reflexivity|].
-    intros n Hin. apply in_app_or in Hin. destruct Hin as [Hin|Hin]; [apply Hp; exact Hin|].
+  unfold op_ok, p_fail, cancel_fail, uncancelled. cbn [p_fault p_cancel p_hs_ok].
+  intro H. apply andb_true_iff in H. destruct H as [H1 H2]. rewrite H2.
+  apply negb_true_iff in H1. apply orb_false_iff in H1. destruct H1 as [H1 _]. rewrite H1. reflexivity.
+Qed.
+
+Lemma read_tok_from_uncancelled pl s : forall w t w',
+  read_tok_from pl w s = (Some t, w') -> read_tok_from (uncancelled pl) w s = (Some t, w').
+Proof.
+  induction s as [|it r IH]; intros w t w'; cbn [read_tok_from].
+  - unfold do_read_op. discriminate.
+  - destruct it as [t0|]; [intro H; exact H|].
+    unfold do_read_op. destruct (op_ok pl w false) eqn:E; cbn [andb]; [|discriminate].
+    rewrite (op_ok_uncancelled pl w false E). cbn [andb]. apply IH.
+Qed.
+
+(* An Ok run of a strict program under a plan that cancels the context at operation c is also
+   the run of the plan without the cancellation, and none of its ctx tests was made after
+   operation c. *)
+Theorem interp_cancel_ok A (p : prog A) pl c : p_cancel pl = Some c -> strict p -> forall w a w',
+  interp pl p w = (ROk a, w') ->
+  interp (uncancelled pl) p w = (ROk a, w') /\
+  exists new, w_trace w' = new ++ w_trace w /\ passes_le c new.
+Proof.
+  intros Hc Hp. unfold strict in Hp.
+  induction Hp as [a0| | | |k _ IH|s k _ IH|s k Hs _ IH|ke k _ IH|ko ke _ IH|k _ IH|m k _ IH|rs k _ IH|e k He _ IH];
+    intros w a w'; cbn [interp]; try discriminate.
+  - intro H. inversion H; subst. split; [reflexivity|]. exists []. split; [reflexivity | intros n []].
+  - unfold read_tok. destruct (read_tok_from pl w (w_script w)) as [[t|] w1] eqn:E; [|discriminate].
+    destruct (read_tok_from_trace pl (w_script w) w) as [nr [Ht Hr]]. rewrite E in Ht. cbn [snd] in Ht.
+    rewrite (read_tok_from_uncancelled pl (w_script w) w E).
+    intro H. destruct (IH t w1 a w' H) as [H0 [new [Hn Hpa]]]. split; [exact H0|].
+    exists (new ++ nr). split; [rewrite Hn, Ht, app_assoc; reflexivity|].
+    intros n Hin. apply in_app_or in Hin. destruct Hin as [Hin|Hin]; [apply Hpa; exact Hin|].
     destruct (Hr _ Hin) as [b Hb]. discriminate.
-  - change (do_write pl1 s w) with (do_write pl0 s w).
-    destruct (do_write pl0 s w) as [ok w1] eqn:Ew. destruct ok; [|left; reflexivity].
-    pose proof (do_write_trace pl0 s w) as Ht. rewrite Ew in Ht. cbn [fst snd] in Ht.
-    destruct (IH w1) as [He|[Heq [new [Hn Hp]]]]; [left; exact He|].
-    right. split; [exact Heq|]. exists (new ++ [EWrite s true]). split; [rewrite Hn, Ht, app_assoc; reflexivity|].
-    intros n Hin. apply in_app_or in Hin. destruct Hin as [Hin|[Hin|[]]]; [apply Hp; exact Hin | discriminate].
-  - change (do_write pl1 s w) with (do_write pl0 s w).
-    destruct (do_write pl0 s w) as [ok w1] eqn:Ew.
-    pose proof (do_write_trace pl0 s w) as Ht. rewrite Ew in Ht. cbn [fst snd] in Ht.
-    destruct (IH w1) as [He|[Heq [new [Hn Hp]]]]; [left; exact He|].
-    right. split; [exact Heq|]. exists (new ++ [EWrite s ok]). split; [rewrite Hn, Ht, app_assoc; reflexivity|].
-    intros n Hin. apply in_app_or in Hin. destruct Hin as [Hin|[Hin|[]]]; [apply Hp; exact Hin | discriminate].
-  - assert (E0 : ctx_done pl0 w = false) by reflexivity. rewrite E0.
-    destruct (ctx_done pl1 w) eqn:Ec; [left; reflexivity|].
+  - unfold do_write. destruct (op_ok pl w true) eqn:E; [|discriminate].
+    rewrite (op_ok_uncancelled pl w true E).
+    intro H. destruct (IH _ a w' H) as [H0 [new [Hn Hpa]]]. split; [exact H0|].
+    exists (new ++ [EWrite s true]). split; [rewrite Hn; cbn; rewrite <- app_assoc; reflexivity|].
+    intros n Hin. apply in_app_or in Hin. destruct Hin as [Hin|[Hin|[]]]; [apply Hpa; exact Hin | discriminate].
+  - intro H. exfalso. destruct Hs as [[]|Hs]. unfold do_write in H. eapply noret_not_ok; [exact Hs | exact H].
+  - assert (E0 : ctx_done (uncancelled pl) w = false) by reflexivity. rewrite E0.
+    destruct (ctx_done pl w) eqn:Ec; [discriminate|].
     assert (Hle : w_ops w <= c).
-    { unfold ctx_done in Ec. cbn in Ec. apply Nat.ltb_ge in Ec. exact Ec. }
-    destruct (IH (set_trace w (ECtxPass (w_ops w)))) as [He|[Heq [new [Hn Hp]]]]; [left; exact He|].
-    right. split; [exact Heq|]. exists (new ++ [ECtxPass (w_ops w)]). split; [rewrite Hn; cbn; rewrite <- app_assoc; reflexivity|].
-    intros n Hin. apply in_app_or in Hin. destruct Hin as [Hin|[Hin|[]]]; [apply Hp; exact Hin|].
+    { unfold ctx_done in Ec. rewrite Hc in Ec. apply Nat.ltb_ge in Ec. exact Ec. }
+    intro H. destruct (IH _ a w' H) as [H0 [new [Hn Hpa]]]. split; [exact H0|].
+    exists (new ++ [ECtxPass (w_ops w)]). split; [rewrite Hn; cbn; rewrite <- app_assoc; reflexivity|].
+    intros n Hin. apply in_app_or in Hin. destruct Hin as [Hin|[Hin|[]]]; [apply Hpa; exact Hin|].
     inversion Hin; subst. exact Hle.
-  - destruct (w_calls w) as [|v vs]; [right; split; [reflexivity|]; exists []; split; [reflexivity | intros n []]|].
-    destruct (sval_err v); [left; reflexivity|].
-    match goal with |- context [interp pl1 (ko v) ?w0] => destruct (IH v w0) as [He|[Heq [new [Hn Hp]]]] end; [left; exact He|].
-    right. split; [exact Heq|]. exists (new ++ [ECall v]). split; [rewrite Hn; cbn; rewrite <- app_assoc; reflexivity|].
-    intros n Hin. apply in_app_or in Hin. destruct Hin as [Hin|[Hin|[]]]; [apply Hp; exact Hin | discriminate].
+  - destruct (w_calls w) as [|v vs]; [discriminate|].
+    destruct (sval_err v); [discriminate|].
+    intro H. destruct (IH v _ a w' H) as [H0 [new [Hn Hpa]]]. split; [exact H0|].
+    exists (new ++ [ECall v]). split; [rewrite Hn; cbn; rewrite <- app_assoc; reflexivity|].
+    intros n Hin. apply in_app_or in Hin. destruct Hin as [Hin|[Hin|[]]]; [apply Hpa; exact Hin | discriminate].
   - apply IH.
-  - match goal with |- context [interp pl1 k ?w0] => destruct (IH w0) as [He|[Heq [new [Hn Hp]]]] end; [left; exact He|].
-    right. split; [exact Heq|]. exists new. split; [exact Hn | exact Hp].
-  - destruct (IH (do_restart rs w)) as [He|[Heq [new [Hn Hp]]]]; [left; exact He|].
-    right. split; [exact Heq|]. exists new. split; [rewrite Hn; destruct rs; reflexivity | exact Hp].
-  - destruct (IH (set_trace w e)) as [Hx|[Heq [new [Hn Hp]]]]; [left; exact Hx|].
-    right. split; [exact Heq|]. exists (new ++ [e]). split; [rewrite Hn; cbn; rewrite <- app_assoc; reflexivity|].
-    intros n Hin. apply in_app_or in Hin. destruct Hin as [Hin|[Hin|[]]]; [apply Hp; exact Hin|].
+  - intro H. destruct (IH _ a w' H) as [H0 [new [Hn Hpa]]]. split; [exact H0|].
+    exists new. split; [exact Hn | exact Hpa].
+  - intro H. destruct (IH _ a w' H) as [H0 [new [Hn Hpa]]]. split; [exact H0|].
+    exists new. split; [rewrite Hn; destruct rs; reflexivity | exact Hpa].
+  - intro H. destruct (IH _ a w' H) as [H0 [new [Hn Hpa]]]. split; [exact H0|].
+    exists (new ++ [e]). split; [rewrite Hn; cbn; rewrite <- app_assoc; reflexivity|].
+    intros n Hin. apply in_app_or in Hin. destruct Hin as [Hin|[Hin|[]]]; [apply Hpa; exact Hin|].
     subst e. destruct He.
 Qed.
 
